@@ -11,6 +11,7 @@ package main
 
 import (
 	"bufio"
+	"bytes"
 	"crypto/sha256"
 	"encoding/hex"
 	"encoding/json"
@@ -21,6 +22,7 @@ import (
 	"path/filepath"
 	"runtime"
 	"sort"
+	"strconv"
 	"strings"
 	"sync"
 	"sync/atomic"
@@ -406,9 +408,22 @@ func runAll(name string, comp Component, hs [][]string, outDir string) {
 
 // ---------- helpers shared by components ----------
 
+// hx: canonical text of a byte string; long runs of one byte (the "large value" inputs) are written rep:<n>:<byte>
 func hx(b []byte) string {
 	if len(b) == 0 {
 		return "-"
+	}
+	if len(b) >= 256 {
+		same := true
+		for _, x := range b {
+			if x != b[0] {
+				same = false
+				break
+			}
+		}
+		if same {
+			return fmt.Sprintf("rep:%d:%02x", len(b), b[0])
+		}
 	}
 	return hex.EncodeToString(b)
 }
@@ -416,6 +431,15 @@ func hx(b []byte) string {
 func unhx(s string) []byte {
 	if s == "-" {
 		return []byte{}
+	}
+	if strings.HasPrefix(s, "rep:") {
+		p := strings.Split(s, ":")
+		n, err := strconv.Atoi(p[1])
+		x, err2 := hex.DecodeString(p[2])
+		if len(p) != 3 || err != nil || err2 != nil || len(x) != 1 {
+			panic("bad rep " + s)
+		}
+		return bytes.Repeat(x, n)
 	}
 	b, err := hex.DecodeString(s)
 	if err != nil {
